@@ -44,6 +44,11 @@ def build_msg(spec, idx):
         return C.dwr(PEER_HOST, PEER_REALM, hbh=hbh, e2e=e2e)
     if k == "dwa":
         return C.dwa(PEER_HOST, PEER_REALM, hbh=hbh, e2e=e2e)
+    if k == "bad":
+        # well framed, but the decoder rejects it (3-byte Result-Code): it must vanish alone
+        m = C.app_answer(APP_ID, 316, hbh, e2e, "peer;1;%d" % idx, PEER_HOST, PEER_REALM, extra=extra)
+        m["avps"] = [a if a[0] != C.RESULT_CODE else (C.RESULT_CODE, C.AF_M, None, b"\x00\x07\xd1") for a in m["avps"]]
+        return m
     raise ValueError(k)
 
 
@@ -87,6 +92,10 @@ class C04(Check):
     def gen_scenario(self, rng, tier, index):
         sweep = (index % 8 == 7)
         n = rng.randint(1, 12 if tier == "quick" else 40)
+        big = (index % 16 == 5)
+        if big:
+            # count boundary: a long run of small messages, coalesced, possibly before the consumer starts
+            n = rng.choice([70, 130, 300])
         if sweep:
             n = rng.choice([2, 3])
         msgs = []
@@ -96,11 +105,15 @@ class C04(Check):
                 kind = "app_req"
             elif x < 0.75:
                 kind = "app_ans"
-            elif x < 0.93:
+            elif x < 0.90:
                 kind = "dwr"
-            else:
+            elif x < 0.95:
                 kind = "dwa"
+            else:
+                kind = "bad"
             pad = rng.choice([0, 0, 0, 1, 2, 3, 17, 200, 1500]) if kind.startswith("app") else 0
+            if big:
+                pad = 0
             if rng.random() < 0.03 and tier != "quick":
                 pad = 70000
             msgs.append({"kind": kind, "pad": pad, "dhost": rng.random() < 0.5,
@@ -124,7 +137,10 @@ class C04(Check):
                        "pos2": rng.getrandbits(30) if rng.random() < 0.5 else None,
                        "gap": rng.choice([0.0005, 0.01, 0.3]), "at": 0.0}]
         mode = rng.choice(["CLIENT", "SERVER"])
-        return {"mode": mode, "msgs": msgs, "bursts": bursts,
+        if big:
+            bursts = [{"msgs": list(range(n)), "style": rng.choice(["whole", "boundaries", "random"]), "ncuts": 3,
+                       "cutseed": rng.getrandbits(30), "gap": 0.0, "at": 0.0}]
+        return {"mode": mode, "msgs": msgs, "bursts": bursts, "max_steps": 6_000_000 + 30000 * n,
                 "consumer_early": rng.random() < 0.5,
                 "outbound": rng.choice([0, 0, 2, 5]),
                 "sched": draw_sched(rng), "knobs": draw_knobs(rng),
